@@ -8,11 +8,11 @@ NOTE_COMMON = "Trusted base: rustc's HIR/MIR construction and type checking on t
 
 CLAIMS = {
  "C01": ("MIR dataflow + dominance + dispatch-table analysis of writer/reader bookkeeping", "4 C01",
-         "Static analysis over the compiler's MIR of the current tree: entry counter incremented exactly once per insert and plumbed to the trailer and Reader::len; codec/level plumbed from the configuration to every block write and from the trailer to every block load; compress/decompress dispatch tables agree per variant and from_u8 inverts `as u8` on all 256 ids; every block write is paired with a parent index entry (last key, offset read before the write) except the root; finish order (data, levels last-to-first, trailer last, flush); depth arithmetic; forward/backward twins are mirror images; a non-empty pending block is always flushed. Byte equality of the round trip through the codec crates is not decided."),
+         "Static analysis over the compiler's MIR of the current tree: entry counter incremented exactly once per insert and plumbed to the trailer and Reader::len; the codec/level reaching compress() at every block write and the codec named in the trailer have the builder's setters as their origin (interprocedural origin sets), and every block load uses the trailer's codec; no call that fills a byte buffer has its produced length discarded; compress/decompress dispatch tables agree per variant and from_u8 inverts `as u8` on all 256 ids; every block write is paired with a parent index entry (last key, offset read before the write) except the root; finish order (data, levels last-to-first, trailer last, flush); depth arithmetic; forward/backward twins are mirror images; a non-empty pending block is always flushed. Byte equality of the round trip through the codec crates is not decided."),
  "C02": ("MIR comparison inventory (REL) + probe/offset dataflow on the seek path", "4 C02",
          "Static analysis: index keyed by last keys with the child's start offset, one probe through all levels, every key comparison on the seek path in canonical form with the action of each outcome (strictness, direction, arm), offset-table layout agreement between BlockWriter::insert and Block::read_from, single steps across block boundaries. Necessary conditions of exact ceiling/floor/match; algorithmic correctness over all key sets is not decided."),
  "C03": ("MIR pairing/dominance analysis of cached cursor state (typestate-like coherence) + compile-fail witness", "4 C03",
-         "Static analysis: every store that replaces a cached index block is followed on every path by a store of the offset it was loaded from (and never the other way round), absolute moves return entries only from a freshly loaded block, reset clears every mutable cursor field, clones are derived and share nothing, every block load follows an absolute seek whose operand is an index entry or the root offset. History independence over all operation sequences is reduced to these coherence conditions; the full state x operation exploration is not performed."),
+         "Static analysis: every store that replaces a cached index block is followed on every path by a store of the offset it was loaded from (and never the other way round), a conditional reload happens exactly on the tag-differs edge, a block replaced in place resets the in-block position, absolute moves return entries only from a freshly loaded block, reset clears every mutable cursor field, clones are derived and share nothing, every block load follows an absolute seek whose operand is an index entry or the root offset. History independence over all operation sequences is reduced to these coherence conditions; the full state x operation exploration is not performed."),
  "C04": ("MIR decision tables over Bound variants + control-dependence of yields + mirror comparison", "4 C04",
          "Static analysis: bound membership functions and first-call positioning decoded into exhaustive 3-arm tables per direction (relation, operand order, extra step on equality), every yielded entry control-dependent on the far-side test of exactly that key, no unguarded success exit, first-call flag consumed once, bounds copied variant-preserving, RangeIter/RevRangeIter mirror images. Correctness of the underlying seeks is C02."),
  "C05": ("MIR control-dependence of yields + arm tables of move_on_last_prefix / advance_key + error-propagation check", "4 C05",
@@ -30,7 +30,7 @@ CLAIMS = {
  "C11": ("who-may-call inventory of I/O primitives + byte-count dataflow", "4 C11",
          "Static analysis: the only raw io::Write::write is CountWrite's counting delegation whose addend is the accepted byte count; no write_all override; no raw io::Read::read; block bodies read through take(len) + read_to_end/decoder; offsets only from CountWrite::count(); no nondeterministic primitives. Given std's write_all/read_exact/read_to_end contracts the emitted stream and read results are independent of how I/O calls are split or interrupted. Fixtures prove the zero-expected detectors fire."),
  "C12": ("error-discipline dataflow over every fallible call result + exhaustive conversion table", "4 C12",
-         "Static analysis: ~200 fallible call results inventoried per configuration, each consumed by a propagating idiom (no drop/.ok()/if-let-Ok/unwrap/panicking Err arm); convert_merge_error maps every variant inhabited for Infallible to itself and is only applied to Error<Infallible>; merge errors reach Error::Merge; create errors go Into->convert->?; flush before handing the sink back. Data-dependent codec errors are outside."),
+         "Static analysis: 150-210 fallible call results inventoried per configuration, each consumed by a propagating idiom (no drop/.ok()/if-let-Ok/unwrap/panicking Err arm); convert_merge_error maps every variant inhabited for Infallible to itself and is only applied to Error<Infallible>; merge errors reach Error::Merge; create errors go Into->convert->?; flush before handing the sink back. Data-dependent codec errors are outside."),
  "C13": ("call-graph closure + panic-source inventory with constant folding + acceptance decision table", "4 C13",
          "Static analysis: the closure of Reader::new is loop-free, recursion-free, reaches no block load, has no explicit panic / bounds check / may-panic std call, all overflow assertions constant-fold, external callees allowlisted; acceptance decoded as a table (magic equality on two values at End(-4), full record at End(-(size+4)), codec ids exactly 0..=5) and every rejection exit is one of those or a propagated I/O error; trailer written last."),
  "C14": ("EXPR extraction of the varint encode/decode tables + LEB128-32 condition check + guarded-narrowing dominance", "4 C14",
@@ -40,7 +40,7 @@ CLAIMS = {
  "C16": ("symbolic cost analysis (loads per call as a*D+b) over the loop-collapsed CFG and call graph with one typestate bit", "4 C16",
          "Static analysis: loads are exactly the 8 Block::new sites; open reaches none; load-reaching loops/recursion accepted only in three recognised D-bounded forms; computed maxima: lookups D+1, relative moves 2D+1 (cold cache), floor seek 2D+2 = 2(index_levels+2) — within the stated bound; each load preceded by one absolute seek."),
  "C17": ("unsafe-perimeter inventory (HIR) + per-operation obligations (MIR dataflow) + truncation-arithmetic contradiction rule + compile-fail witnesses", "4 C17",
-         "Static analysis: the unsafe perimeter equals the reviewed set; lifetime-extending transmutes only in &mut self methods returning self-bound regions from self-reached data; alloc/dealloc layouts agree with the stored len, null check, single owner, not Clone; positive allocation sizes; raw-parts receive (data, len); Pod target padding-free; no arithmetic on truncated integers; 15 compile-fail witness pairs on the public API. The general overflow-freedom clause is NOT claimed."),
+         "Static analysis: every unsafe operation is of a kind with a discharging rule (allocation/raw-parts/align_to/new_unchecked sites equal the reviewed table; lifetime extensions are discharged per function wherever they occur: the extended references are reached through exactly one `&mut` parameter — never through an owned call result — and the returned regions are that parameter's); alloc/dealloc layouts agree with the stored len, null check, single owner, not Clone; allocation size positive and computed without wrapping arithmetic; raw-parts receive (data, len); Pod target padding-free; no arithmetic on truncated integers; a linear-invariant analysis proves all 23 checked arithmetic sites of the two-ended sorter buffer overflow-free and its invariant preserved by every mutator (certificates by bounded enumeration, no solver); 15 compile-fail witness pairs on the public API. Overflow freedom of arithmetic outside the sorter buffer is not claimed."),
  "C18": ("MIR dominance + field-mutator analysis, incl. release-like config", "4 C18",
          "Static analysis in default, all-features and a debug-assertions-off configuration: the strict `new > last` comparison's false edge diverges and, with the empty-block arm, cuts every path to the buffer appends; last_key refreshed on both arms and only cleared by the post-flush reset; the block buffer has exactly the expected mutators and BlockWriter exactly three &mut methods; index entries go through the same checked insert; the u32 length assertions survive without debug assertions."),
 }
@@ -70,11 +70,11 @@ m = {
  "setup_cmd": "./check --setup",
  "hooks": {"guard": "grenad_verif", "enable": "none needed: static analysis reads the unmodified source; no hook commits exist and `--cfg grenad_verif` is never passed", "baseline_off_cmd": "cd /repo && cargo test --workspace --no-fail-fast --offline", "source_commits": [], "add_only": True},
  "engines": [
-  {"name": "factgen", "path": "/verif/factgen", "serves_properties": sorted(CLAIMS), "kind_free_text": "rustc_private driver (nightly) run as RUSTC_WRAPPER under cargo check: serialises items, types, constants, MIR with resolved callees and the HIR unsafe perimeter of the real build (4 feature/flag configurations + grenad 0.4.7)"},
-  {"name": "rules", "path": "/verif/rules", "serves_properties": sorted(CLAIMS), "kind_free_text": "python3 stdlib rule engine over the fact files: CFG, dominators/post-dominators, reaching-definition expression reconstruction, who-may-call / who-may-write inventories, pairing, decision tables, mirror comparison; floors and fixtures make every rule non-vacuous"},
+  {"name": "factgen", "path": "/verif/factgen", "serves_properties": sorted(CLAIMS), "kind_free_text": "rustc_private driver (nightly) run as RUSTC_WRAPPER under cargo check: serialises items, types, layouts, constants, MIR with resolved callees and the HIR unsafe perimeter of the real build (4 feature/flag configurations + grenad 0.4.7 + the fixture crate)"},
+  {"name": "rules", "path": "/verif/rules", "serves_properties": sorted(CLAIMS), "kind_free_text": "python3 stdlib rule engine over the fact files: normalisation pre-passes (rename alignment, inlining of new helpers, combinator desugaring + closure inlining), CFG, dominators/post-dominators, reaching-definition expression reconstruction, body specialisation per enum variant, interprocedural origin tracing, who-may-call / who-may-write inventories, pairing, decision tables, mirror comparison, symbolic cost, linear-invariant certificates; floors and fixtures make every rule non-vacuous"},
  ],
  "checks": checks,
- "notes": "Technique family: static analysis only (nothing of grenad is executed by any check). Fix commits in /repo: 1babdda, c494583, de4f8dd (see known_findings.txt).",
+ "notes": "Technique family: static analysis only (nothing of grenad is executed by any check). Fix commits in /repo: 1babdda, c494583, de4f8dd, 5f2e922 (see known_findings.txt).",
  "not_applicable": na,
 }
 json.dump(m, open(os.path.join(V, "MANIFEST.json"), "w"), indent=1)
